@@ -256,6 +256,34 @@ def ext_units(pid):
     except ModuleNotFoundError as e:
         if e.name != "props.%s_ext" % pid.lower():
             raise
+    # units of another property that decide an obligation of this one as well: run under this property's id (same callable, must-fail twin included)
+    from props.aliases import ALIASES_BY_ID
+    ready = []
+    if pid not in _RESOLVING:
+        _RESOLVING.add(pid)
+        try:
+            from props.aliases import ALIAS_RULES
+            byid = list(ALIASES_BY_ID.get(pid, []))
+            for t_, s_, rx in ALIAS_RULES:
+                if t_ != pid:
+                    continue
+                for suid, _g in unit_list(s_):
+                    if suid.startswith(s_ + ".") and re.search(rx, suid) and "vacuity" not in suid:
+                        nid = pid + suid[len(s_):]
+                        if nid not in [x[0] for x in byid] and nid not in [x[0] for x in UN]:
+                            byid.append((nid, s_, suid))
+            for uid, spid, suid in byid:
+                src = dict(unit_list(spid))
+                if suid not in src:
+                    def miss(uid=uid, suid=suid):
+                        raise Undecided("aliased unit %s not found" % suid)
+                    ready.append((uid, miss)); continue
+                def g2(g=src[suid], uid=uid):
+                    r_ = g(); r_.id = uid
+                    return r_
+                ready.append((uid, g2))
+        finally:
+            _RESOLVING.discard(pid)
     for uid, f in UN:
         def g(f=f):
             r = f()
@@ -263,7 +291,38 @@ def ext_units(pid):
                 U.must_fail_twin(r, "vacuity.must_fail_twin", lambda: f(twin=True))
             return r
         out.append((uid, g))
-    return out
+    return out + ready
+
+
+_RESOLVING = set()
+_UNIT_LISTS = {}
+
+
+def unit_list(pid):
+    """[(unit id, callable)] of a property, as its module's run() assembles it (the list is captured, nothing is executed)"""
+    if pid in _UNIT_LISTS:
+        return _UNIT_LISTS[pid]
+    import importlib
+    from vf import core as _core
+    M = importlib.import_module("props." + pid)
+    got = {}
+    class _Stop(Exception):
+        pass
+    orig = _core.run_units
+    def fake(us, jobs=8):
+        got["us"] = list(us); raise _Stop()
+    _RESOLVING.add(pid)
+    _core.run_units = fake
+    try:
+        try:
+            M.run(U.TIER.get("tier", "quick"), U.TIER.get("seed", 1), None, 1)
+        except _Stop:
+            pass
+    finally:
+        _core.run_units = orig
+        _RESOLVING.discard(pid)
+    _UNIT_LISTS[pid] = got.get("us", [])
+    return _UNIT_LISTS[pid]
 
 
 def cases(hy, cond):
